@@ -1,6 +1,8 @@
 (* Correspondence check for C34: one request on the real volume server handlers
    (privateStoreHandler / publicReadOnlyHandler over a real Store, with a real
-   security.Guard), with tokens built by the harness. *)
+   security.Guard), with tokens built by the harness.  The store is observed PER NEEDLE:
+   state of every tracked needle before and after the request (read back from the real
+   store), which needle's bytes/ETag the response carries, how many volumes changed. *)
 From Coq Require Import List NArith Bool String.
 From SW Require Export base.Verdict model.Jwt.
 Import ListNotations.
@@ -10,41 +12,79 @@ Record case := {
   c_rq : request;
   c_tab : toktab;              (* facts about every token string the request carries *)
   c_presented : list string;   (* the token strings embedded in the request (query, header) *)
-  c_target : target;           (* does the addressed needle exist (correspondence of the final status only) *)
+  c_world : world;             (* volumes of the store; tracked live needles before the request *)
   (* implementation observables *)
   i_status : N;                (* 0 = the handler panicked *)
-  i_changed : bool;            (* .dat/.idx sizes or the needle counters changed *)
-  i_leak : bool                (* the response discloses the needle (GET: its bytes; HEAD: 200) *)
+  i_after : list nrec;         (* tracked live needles after the request *)
+  i_disclosed : list (N * N);  (* (volume, id) of the needles whose bytes (GET) / ETag (HEAD 200) the response carries *)
+  i_vols_changed : N;          (* volumes whose .dat/.idx size or needle counters changed *)
+  (* the real parsers on the texts the real path readers give (ties of the numeric model) *)
+  i_vid : option N;            (* needle.NewVolumeId(vid) *)
+  i_fid : (N * N) * bool;      (* ParsePath(fid): id, cookie left in the needle, err == nil *)
+  i_ufid : option ((N * N) * bool)   (* ParsePath(upload's fid); None = the path reader panics *)
 }.
 
-(* what a handler that reached the store does to it *)
-Definition expect_changed (o : hresult) (m : meth) (tg : target) : bool :=
-  match o, m, tg with
-  | Proceed _ _, (POST | PUT), (TExists | TMissing) => true
-  | Proceed _ _, DELETE, TExists => true
-  | _, _, _ => false
+Definition nrec_eqb (a b : nrec) : bool :=
+  ((n_vol a =? n_vol b) && (n_id a =? n_id b) && (n_ck a =? n_ck b) && (n_content a =? n_content b))%N.
+Definition incl_b (l1 l2 : list nrec) : bool := forallb (fun x => existsb (nrec_eqb x) l2) l1.
+Definition same_set (l1 l2 : list nrec) : bool := incl_b l1 l2 && incl_b l2 l1 && Nat.eqb (List.length l1) (List.length l2).
+Definition pair_eqb (a b : N * N) : bool := ((fst a =? fst b) && (snd a =? snd b))%N.
+Fixpoint plist_eqb (l1 l2 : list (N * N)) : bool :=
+  match l1, l2 with
+  | [], [] => true
+  | a :: l1', b :: l2' => pair_eqb a b && plist_eqb l1' l2'
+  | _, _ => false
   end.
-Definition expect_leak (o : hresult) (m : meth) (tg : target) : bool :=
-  match o, m, tg with
-  | Proceed _ _, (GET | HEAD), TExists => true
-  | _, _, _ => false
-  end.
+Definition opt_eqb {A} (e : A -> A -> bool) (a b : option A) : bool :=
+  match a, b with Some x, Some y => e x y | None, None => true | _, _ => false end.
+Definition st_eqb (a b : (N * N) * bool) : bool := pair_eqb (fst a) (fst b) && Bool.eqb (snd a) (snd b).
+Definition triple_eqb (a b : N * N * N) : bool :=
+  ((fst (fst a) =? fst (fst b)) && (snd (fst a) =? snd (fst b)) && (snd a =? snd b))%N.
+
+(* the needles whose state differs between two snapshots *)
+Definition touched (before after : list nrec) : list nrec :=
+  filter (fun x => negb (existsb (nrec_eqb x) after)) before ++
+  filter (fun x => negb (existsb (nrec_eqb x) before)) after.
+
+Definition parsers_tie (c : case) : bool :=
+  match parse_url_path (rq_path (c_rq c)) with
+  | Some (vid, fid) => opt_eqb N.eqb (parse_vid vid) (i_vid c) && st_eqb (parse_path_st fid) (i_fid c)
+  | None => true
+  end &&
+  opt_eqb st_eqb (match upload_fid (rq_path (c_rq c)) with Some u => Some (parse_path_st u) | None => None end) (i_ufid c) &&
+  forallb (fun p => opt_eqb triple_eqb (claim_den (t_fid (snd p))) (t_den (snd p))) (c_tab c).
 
 Definition check (c : case) : outcome :=
   let rq := c_rq c in
   let m := rq_method rq in
   let o := handle (c_tab c) (c_cfg c) rq in
+  let e := store_step o m (c_world c) in
+  let before := w_live (c_world c) in
   let allowed := spec_allows (c_tab c) (c_cfg c) rq (c_presented c) in
-  {| o_corr := (final_status o m (c_target c) =? i_status c)%N
-               && Bool.eqb (expect_changed o m (c_target c)) (i_changed c)
-               && Bool.eqb (expect_leak o m (c_target c)) (i_leak c);
-     (* property: whoever is not allowed by the reference is turned away with 401/400
-        (or is not routed, or the request dies) and nothing was touched or disclosed *)
-     o_prop := if allowed then true
-               else negb (i_changed c) && negb (i_leak c)
-                    && ((i_status c =? 401)%N || (i_status c =? 400)%N || (i_status c =? 0)%N
-                        || (rq_public rq && is_write_method m));
-     o_trig := None;   (* finding C34/0 is repaired in the tree: no known finding is left *)
+  let tch := touched before (i_after c) in
+  {| o_corr := (e_status e =? i_status c)%N
+               && same_set (e_live e) (i_after c)
+               && plist_eqb (e_disclosed e) (i_disclosed c)
+               && (i_vols_changed c =? (if same_set before (e_live e) then 0 else 1))%N
+               && parsers_tie c;
+     (* property (on the implementation's observables only):
+        (a) every needle whose state changed and every needle the response discloses is opened by a
+            presented token: valid for the key of the request's class, claim denoting (real parser) that
+            needle's volume and cookie and its id (a smaller id only when the path carries a _suffix);
+            and no volume changed without a tracked needle changing;
+        (b) a request none of whose tokens is valid and names the addressed needle is turned away with
+            401/400 (or is not routed, or dies) and touches/discloses nothing *)
+     o_prop := forallb (needle_allowed (c_tab c) (c_cfg c) rq (c_presented c)) tch
+               && forallb (fun p => match find_needle (fst p) (snd p) before with
+                                    | Some r => needle_allowed (c_tab c) (c_cfg c) rq (c_presented c) r
+                                    | None => false end) (i_disclosed c)
+               && (match tch with [] => (i_vols_changed c =? 0)%N | _ => true end)
+               && (if allowed then true
+                   else match tch with [] => true | _ => false end
+                        && match i_disclosed c with [] => true | _ => false end
+                        && ((i_status c =? 401)%N || (i_status c =? 400)%N || (i_status c =? 0)%N
+                            || (rq_public rq && is_write_method m)));
+     o_trig := if trig_delete_unparsed rq then Some 0%N else None;
      o_nontrivial := negb (sempty (key_for (c_cfg c) (is_write_method m)))
                      && negb (match c_presented c with [] => true | _ => false end) |}.
 
